@@ -539,7 +539,7 @@ pub fn finish_check(
     extra: serde_json::Value,
 ) -> i32 {
     let known = load_known();
-    let mut new_violations = 0;
+    let mut new_violations: usize = 0;
     let mut known_lines: BTreeSet<String> = BTreeSet::new();
     let mut reported_classes: BTreeSet<String> = BTreeSet::new();
     let mut replay_paths = Vec::new();
@@ -605,7 +605,9 @@ pub fn finish_check(
         "C01" | "C15" => agg.shapes.len(),
         _ if !agg.nontrivial.is_empty() => agg.nontrivial.len(),
         _ => agg.states.len(),
-    };
+    } + extra.get("add_distinct").and_then(|v| v.as_u64()).unwrap_or(0) as usize;
+    new_violations += extra.get("pre_violations").and_then(|v| v.as_u64()).unwrap_or(0) as usize;
+    let add_evals = extra.get("add_evaluations").and_then(|v| v.as_u64()).unwrap_or(0);
     let unreached: Vec<String> = crate::probes::expected(prop).iter().filter(|p| agg.probes.get(**p).copied().unwrap_or(0) == 0).map(|s| s.to_string()).collect();
     let ev = json!({
         "property_id": prop,
@@ -615,7 +617,7 @@ pub fn finish_check(
         "wall_s": wall,
         "violations": new_violations,
         "coverage": {
-            "evaluations": if agg.cases > 0 { agg.cases } else { agg.evaluations },
+            "evaluations": add_evals + if agg.cases > 0 { agg.cases } else { agg.evaluations },
             "simulated_runs": agg.evaluations,
             "distinct_nontrivial": distinct,
             "rule": rule,
@@ -694,6 +696,17 @@ pub fn compact_plan(p: &Plan) -> serde_json::Value {
 
 pub fn replay_main(path: &str) -> i32 {
     crate::init_process();
+    if let Some(v) = std::fs::read(path).ok().and_then(|b| serde_json::from_slice::<serde_json::Value>(&b).ok()) {
+        if v["engine"] == "shuttle" {
+            let exe = std::env::current_exe().unwrap();
+            let st = Command::new(exe).args(["c13-micro", "replay", path]).status().unwrap();
+            if st.code() == Some(1) {
+                println!("VIOLATION property=C13 replay={path}");
+                return 1;
+            }
+            return st.code().unwrap_or(2);
+        }
+    }
     let rf: ReplayFile = match std::fs::read(path).ok().and_then(|b| serde_json::from_slice(&b).ok()) {
         Some(r) => r,
         None => {
